@@ -14,7 +14,7 @@ pub fn def() -> CheckDef {
         meta: CheckMeta {
             id: "C12",
             level: "fault_enumeration",
-            rule: "files after n = 0..N commits (N = 6 quick / 16 thorough) of generated histories (page sizes 1024, 4096 and, in one shard of eight, 5000 from a 4-page file, i.e. grown to a length that is not a whole number of pages); target = newest or older header page; damage = every offset of the header page x {xor 0xFF, xor 0x01, set 0, one seeded value} (thorough: all 255 alternatives on every byte the format defines: offset 8 and 32-43, 48-103), zeroing the page, every word-aligned range of the first 128 bytes zeroed (and short ranges / ranges to the end set to 0xFF), seeded multi-byte overwrites inside and outside the record, and tails from every 8-byte boundary filled with zeros / 0xFF / seeded bytes / the page's previous contents (a partially written header). Damages that leave the bytes unchanged are skipped. Oracle: opening a copy through the public API succeeds (no panic) and a full dump equals the state recorded by the intact header (S_n if the older header was hit, S_{n-1} if the newest was) whenever a byte the format defines changed; if only undefined bytes changed (page-header id/count/overflow, padding, bytes past the record) either state is accepted. Non-trivial = damage that changes a defined byte of the NEWEST header of a file whose last commit changed the state. Distinct = (file, target, damage).",
+            rule: "files after n = 0..N commits (N = 6 quick / 16 thorough) of generated histories (page sizes 1024, 4096 and, in one shard of eight, 5000 from a 4-page file, i.e. grown to a length that is not a whole number of pages; two shards of eight open with map-populate on, one of them also with strict mode and from a 4-page file); target = newest or older header page; damage = every offset of the header page x {xor 0xFF, xor 0x01, set 0, one seeded value} (thorough: all 255 alternatives on every byte the format defines: offset 8 and 32-43, 48-103), zeroing the page, every word-aligned range of the first 128 bytes zeroed (and short ranges / ranges to the end set to 0xFF), seeded multi-byte overwrites inside and outside the record, and tails from every 8-byte boundary filled with zeros / 0xFF / seeded bytes / the page's previous contents (a partially written header). Damages that leave the bytes unchanged are skipped. Oracle: opening a copy through the public API succeeds (no panic) and a full dump equals the state recorded by the intact header (S_n if the older header was hit, S_{n-1} if the newest was) whenever a byte the format defines changed; if only undefined bytes changed (page-header id/count/overflow, padding, bytes past the record) either state is accepted. Non-trivial = damage that changes a defined byte of the NEWEST header of a file whose last commit changed the state. Distinct = (file, target, damage).",
             assumptions: &[
                 "single-process open of a copy; the other header and all data pages are intact",
                 "a checksum collision under random multi-byte damage (2^-64) is ignored",
@@ -315,6 +315,9 @@ fn shard(ctx: &ShardCtx, known: &Known) -> ShardOut {
             // a page size that does not divide the growth step, from a 4-page file: the file has
             // grown by the first commits and its length is not a whole number of pages
             5 => Cfg { pagesize: 5000, num_pages: 4, strict: false, populate: false },
+            // the damaged file is reopened with map-populate / strict mode on
+            1 => Cfg { pagesize: 1024, num_pages: 32, strict: false, populate: true },
+            6 => Cfg { pagesize: 1024, num_pages: 4, strict: true, populate: true },
             _ => Cfg { pagesize: 1024, num_pages: 32, strict: false, populate: false },
         };
         // pad to at least n_max transactions with simple state-changing ones
